@@ -13,13 +13,16 @@ def reqOf (l : Line) : _root_.C06.Req :=
     -- the granted scopes as the client's registration restricts them per token kind (absent on old lines: no restriction)
     idScopes := if has l "r.idscopes" then list l "r.idscopes" else list l "r.scopes",
     atScopes := if has l "r.atscopes" then list l "r.atscopes" else list l "r.scopes",
-    storageFillsID := bool l "r.fillsid", storageFillsAT := bool l "r.fillsat" }
+    storageFillsID := bool l "r.fillsid", storageFillsAT := bool l "r.fillsat",
+    curKey := if has l "k.cur" then int l "k.cur" else -1, curAlg := str l "k.alg" }
 
 def obsOf (l : Line) : _root_.C06.Obs :=
   { flow := str l "flow", hasIDToken := bool l "o.idtoken", rpVerifies := bool l "o.rpverifies", idClaims := parseClaims l "c.", amr := list l "o.amr",
     cHashOK := boolD l "o.chash" true, atHashOK := boolD l "o.athash" true, userClaims := list l "o.userclaims", jwtAccessToken := bool l "o.jwtat", atVerifies := boolD l "o.atverifies" true,
     atClaims := { iss := str l "a.iss", sub := str l "a.sub" }, opaqueOK := boolD l "o.opaque" true, expiresInOK := boolD l "o.expiresin" true,
-    scopeOK := boolD l "o.scope" true, atUserClaims := list l "o.atuserclaims" }
+    scopeOK := boolD l "o.scope" true, atUserClaims := list l "o.atuserclaims",
+    idSigner := if has l "o.idsigner" then int l "o.idsigner" else -1, idAlg := str l "o.idalg",
+    atSigner := if has l "o.atsigner" then int l "o.atsigner" else -1, atAlg := str l "o.atalg" }
 
 def monitorLine (l : Line) : Option String :=
   if str l "obs" != "tokens" then none else
@@ -28,7 +31,13 @@ def monitorLine (l : Line) : Option String :=
   let r := if r.authTime == -1 then { r with authTime := (obsOf l).idClaims.authTime + r.skew } else r
   _root_.C06.judge r (obsOf l)
 
+/-- the class of a case: flow, algorithm, outcome, token kind, restriction; for a step of a history with key changes also its event -/
+def classOf (l : Line) : String :=
+  let ev := str l "h.ev"
+  let hist := if ev == "" || (ev == "none" && int l "h.steps" ≤ 1) then "" else s!":hist{int l "h.nprov"}:{ev}:{str l "h.when"}"
+  s!"{str l "flow"}:{str l "alg"}:{str l "obs"}:{if bool l "o.jwtat" then "jwt" else "opaque"}:{str l "restrict"}{hist}"
+
 def step (l : Line) : String :=
-  s!"case={str l "case"} class={str l "flow"}:{str l "alg"}:{str l "obs"}:{if bool l "o.jwtat" then "jwt" else "opaque"}:{str l "restrict"} model=- observed={str l "obs"} monitor={showMon (monitorLine l)} agree=1"
+  s!"case={str l "case"} class={classOf l} model=- observed={str l "obs"} monitor={showMon (monitorLine l)} agree=1"
 
 end Drv.C06
